@@ -90,7 +90,8 @@ impl<'a> ProofInstrumentor<'a> {
             let fiat_constructor = &self.proof_names().fiat_constructor;
             match justification {
                 Justification::Rule(rule_name, proof_list) => format!(
-                    "({rule_constructor} \"{rule_name}\" {proof_list} ({to_ast_constructor} {larger}) ({to_ast_constructor} {smaller}))"
+                    "({rule_constructor} {} {proof_list} ({to_ast_constructor} {larger}) ({to_ast_constructor} {smaller}))",
+                    Literal::String(rule_name.clone())
                 ),
                 Justification::Fiat => format!(
                     "({fiat_constructor} ({to_ast_constructor} {larger}) ({to_ast_constructor} {smaller}))"
@@ -1190,7 +1191,8 @@ impl<'a> ProofInstrumentor<'a> {
         let fiat_constructor = &self.proof_names().fiat_constructor;
         match justification {
             Justification::Rule(rule_name, rule_proof) => format!(
-                "({rule_constructor} \"{rule_name}\" {rule_proof} ({to_ast} {fv}) ({to_ast} {fv}))"
+                "({rule_constructor} {} {rule_proof} ({to_ast} {fv}) ({to_ast} {fv}))",
+                Literal::String(rule_name.clone())
             ),
             Justification::Fiat => {
                 format!("({fiat_constructor} ({to_ast} {fv}) ({to_ast} {fv}))")
@@ -1258,7 +1260,8 @@ impl<'a> ProofInstrumentor<'a> {
             let proof = match justification {
                 Justification::Rule(rule_name, rule_proof) => {
                     format!(
-                        "({rule_constructor} \"{rule_name}\" {rule_proof} ({to_ast} {fv}) ({to_ast} {fv}))",
+                        "({rule_constructor} {} {rule_proof} ({to_ast} {fv}) ({to_ast} {fv}))",
+                        Literal::String(rule_name.clone())
                     )
                 }
                 Justification::Fiat => {
@@ -1420,7 +1423,9 @@ impl<'a> ProofInstrumentor<'a> {
         };
 
         let actions = self.instrument_actions(&rule.head.0, &proof);
-        let name = &rule.name;
+        // Print the name as a string literal: an unnamed rule is named after its own text,
+        // which may contain quotes and backslashes.
+        let name = Literal::String(rule.name.clone());
         let ruleset_opt = if rule.ruleset.is_empty() {
             "".to_string()
         } else {
@@ -1445,7 +1450,7 @@ impl<'a> ProofInstrumentor<'a> {
                    ({proof_var_binding}
                     {})
                     {ruleset_opt} {eval_opt}
-                    :name \"{name}\")",
+                    :name {name})",
             ListDisplay(facts, " "),
             ListDisplay(actions, " "),
         );
